@@ -302,7 +302,7 @@ PANDAS_COW = _pandas_cow()
 VEC_METHODS = {'astype', 'flatten', 'reshape', 'fill', 'count', 'any', 'all', 'copy', 'to_numpy', 'to_series',
                'ravel', 'sort', 'min', 'max', 'mean', 'std', 'sum', 'tolist', 'filled', 'rolling', 'isocalendar',
                'tz_localize', 'view', 'item', 'compressed', 'argsort', 'put', 'resize', 'itemset', 'squeeze',
-               'nonzero', 'isna', 'isnull', 'notna', 'dropna', 'fillna', 'tz_convert', 'cumsum', 'round', 'ptp',
+               'nonzero', 'isna', 'isnull', 'notna', 'dropna', 'fillna', 'ffill', 'bfill', 'tz_convert', 'cumsum', 'round', 'ptp',
                'searchsorted', 'unique', 'apply', 'map', 'astimezone', 'clip', 'argmax', 'argmin', 'repeat',
                'diff', 'shift', 'abs', 'where', 'between', 'total_seconds', 'isnull', 'notnull'}
 
@@ -328,6 +328,10 @@ def vec_getattr(M, interp, v, name, node):
     if name == 'T':
         return v
     if name == 'mask':
+        if v.kind == 'series':
+            # library fact: a pandas Series *has* an attribute `mask` - the method Series.mask(cond, other) - so getattr(x, "mask", default)
+            # does not fall back to the default, and the object is truthy
+            return ModelMethod(v, 'mask')
         if v.kind != 'ma':
             raise AbsRaise(ExcVal('AttributeError', (f"'{_tname(v)}' object has no attribute 'mask'",)), node)
         out = Vec.fresh([El(m_formula(e.m), False) for e in v.els()], kind='nd', dtype='b1')
@@ -731,7 +735,7 @@ def register(M):
                             d = X.num(floor_fr(d[1] / us) * us)
                         elif d not in (X.NAN, X.ANY):
                             d = X.scale(X.fn('floor', X.scale(d, Fr(1) / us)), us)
-                elif src in ('f8', 'i8') and unit in UNIT_SECONDS:
+                elif src in ('f8', 'i8', 'u1') and unit in UNIT_SECONDS:
                     # number of <unit>s since the epoch; a float is truncated to a whole number of units
                     if X.is_num(d):
                         d = X.num(trunc_fr(d[1]) * us)
@@ -955,6 +959,10 @@ def register(M):
         elif mask is False or mask is None:
             ms = [False] * len(els)
         elif mask is True:
+            ms = [True] * len(els)
+        elif isinstance(mask, (ModelMethod, PyCallable, FuncVal, BoundMethod)):
+            # library fact: np.ma.array(x, mask=<any object>) converts the object with np.array(obj, dtype=bool): a method / function is True,
+            # broadcast over the data - everything is masked
             ms = [True] * len(els)
         else:
             raise AnalysisError('mask= form not modelled', node)
